@@ -47,6 +47,17 @@ CHECKS["C11"] = dict(
   note="Trusted: symgo executor, z3. Bounds: as stated; one cut (sampled positions in quick). Outside: hooks that re-enter the channel; messages received after the failing callback (the implementation tries to append them but the nil-callback path returns a bare io.EOF; not demanded by the property).",
   ref="DESIGN.md §4 C11")
 
+CHECKS["C02"] = dict(
+  technique="symbolic execution of go/ssa with SMT (z3): differential run of the real receive path on one packet vs. two packets for arbitrary symbolic response bytes per leading token; Packet.ReadFrom over symbolically chunked transport reads",
+  text="Bounded symbolic model checking in two layers. (a) transport -> packets: Packet.ReadFrom / PacketHeader.ReadFrom over a stream with symbolic header fields, body length and content that the transport hands over in up to 4 reads of symbolic sizes (splitting header and body anywhere): no error, exactly the packet's bytes consumed, header and body as sent. (b) packets -> packages: for each of 21 leading tokens the response is N arbitrary symbolic bytes; it is delivered through Channel.WritePacket once as a single EOM packet and once cut into two packets at every position; whenever the single-packet run raises no parse error, the two-packet run must queue deep-equal packages in the same order, raise no error and apply the same packet size.",
+  note="Trusted: symgo executor, z3; layer (a) hands layer (b) exactly the packets on the wire (asserted by (a)). Bounds: response length N = 5..19 bytes after the token (quick) / up to 23 (thorough), one cut (case-split over all positions), <=4 format fields, body <=6/12 bytes and <=4 transport chunks in (a). Outside: two or more cuts, ROW/PARAMS data shapes (their value decoding is covered by C04/C05 harnesses), header-only packets inside a response (delivered as HeaderOnlyPackage by design of WritePacket), TLS.",
+  ref="DESIGN.md §4 C02")
+CHECKS["C14"] = dict(
+  technique="symbolic execution of go/ssa with SMT (z3) including the reader goroutine (coroutine scheduler): transport dying at every byte offset with four failure kinds, symbolic field values, consumer blocking in NextPackage",
+  text="Bounded symbolic model checking of Conn.ReadFrom (run as a simulated goroutine), Packet.ReadFrom, PacketHeader.ReadFrom, Channel.WritePacket/tryParsePackage and NextPackage(wait). A packetised response (one or two packets, symbolic values) is served by a transport stub that dies at a case-split byte offset 0..len with one of four failure kinds ((0,EOF), (0,err), (n>0,EOF), (n>0,err)); the consumer reads until it gets an error. Decided: delivered packages are a deep-equal prefix of the undisturbed response, an error follows (no deadlock outcome: the consumer never blocks forever), no final DONE unless the EOM packet was received completely, every package of a completely received packet is delivered; a failing write during a request is reported.",
+  note="Trusted: symgo executor and its goroutine/channel/select model (non-preemptive scheduling: a goroutine runs until it blocks), deadline model (expires after at most 3 polls), z3. Bounds: response of 3 (quick) / 4 (thorough) packages, 1-2 packets (2 cut positions quick / 5 thorough), read chunk sizes case-split over {1,3,8,all}. Harness conn error queue has capacity 3 instead of 10. Known findings (reported as KNOWN-FINDING): F-C14-error-overtakes-package, F-C14-data-with-error-dropped. Outside: stalls without error (no read deadline exists in the code), wall-clock time.",
+  ref="DESIGN.md §4 C14")
+
 NOT_APPLICABLE = {
 }
 
